@@ -122,7 +122,10 @@ func bReadU16(r *bytes.Reader, data *uint16) error {
 		bs []byte
 	)
 	bs = b[:]
-	_, err := r.Read(bs)
+	n, err := r.Read(bs)
+	if err == nil && n < len(bs) {
+		err = io.ErrUnexpectedEOF
+	}
 	*data = binary.BigEndian.Uint16(bs)
 	return err
 }
@@ -134,7 +137,10 @@ func bReadU32(r *bytes.Reader, data *uint32) error {
 		bs []byte
 	)
 	bs = b[:]
-	_, err := r.Read(bs)
+	n, err := r.Read(bs)
+	if err == nil && n < len(bs) {
+		err = io.ErrUnexpectedEOF
+	}
 	*data = binary.BigEndian.Uint32(bs)
 	return err
 }
@@ -146,7 +152,10 @@ func bReadU64(r *bytes.Reader, data *uint64) error {
 		bs []byte
 	)
 	bs = b[:]
-	_, err := r.Read(bs)
+	n, err := r.Read(bs)
+	if err == nil && n < len(bs) {
+		err = io.ErrUnexpectedEOF
+	}
 	*data = binary.BigEndian.Uint64(bs)
 	return err
 }
